@@ -41,6 +41,9 @@ func genGQ(t *rapid.T, window bool) GQCase {
 	res := sem.Def.ResNS
 	names := tableFieldNames(s, "ta")
 	c.Sel = []h.QField{{Name: "_points"}}
+	if rapid.IntRange(0, 4).Draw(t, "selstar") == 0 {
+		c.Sel = []h.QField{{Star: true}}
+	}
 	seen := map[string]bool{}
 	n := rapid.IntRange(0, len(names)).Draw(t, "nsel")
 	for i := 0; i < n; i++ {
@@ -145,6 +148,28 @@ func acceptedSubPoints(s *h.Schema, table string, pts []h.Point) []h.SubPoint {
 	return out
 }
 
+// refSel expands * into _points plus all table fields for the reference.
+func (c *GQCase) refSel() []h.QField {
+	var out []h.QField
+	seen := map[string]bool{}
+	for _, f := range c.Sel {
+		if f.Star {
+			for _, n := range append([]string{"_points"}, tableFieldNames(&c.Data.Schema, "ta")...) {
+				if !seen[n] {
+					seen[n] = true
+					out = append(out, h.QField{Name: n})
+				}
+			}
+			continue
+		}
+		if !seen[f.Name] {
+			seen[f.Name] = true
+			out = append(out, f)
+		}
+	}
+	return out
+}
+
 func runGQ(c *GQCase) error {
 	s := &c.Data.Schema
 	sem := h.SemFor(s, "ta")
@@ -195,14 +220,38 @@ func runGQ(c *GQCase) error {
 		var firstDiff string
 		for _, a := range asOfC {
 			for _, u := range untilC {
-				rq := &h.RefQ{Fields: c.Sel, GroupBy: c.GroupBy, KeepKey: c.Group == "keep", AsOf: a, Until: u}
+				rq := &h.RefQ{Fields: c.refSel(), GroupBy: c.GroupBy, KeepKey: c.Group == "keep", AsOf: a, Until: u}
 				if c.PMult > 0 {
 					rq.Period = int64(c.PMult) * res
 				}
 				want := sem.Query(pts, rq)
 				d := h.DiffRows(want, got.Rows, nil)
 				if d == "" {
-					return validateBuckets(got, q.SQL())
+					if err := validateBuckets(got, q.SQL()); err != nil {
+						return err
+					}
+					if c.AsOf == nil && c.Until == nil {
+						return nil
+					}
+					// metamorphic part of C07: the unbounded query, run AFTER the
+					// time-ranged one on the same database, still reports the
+					// reference values (a ranged query must not disturb what later
+					// queries see for the same periods)
+					uq := *q
+					uq.AsOf, uq.Until = nil, nil
+					ug, uerr := db.Query(uq.SQL(), h.QueryOpts{Mem: true})
+					if uerr != nil {
+						if h.IsInconclusive(uerr) {
+							return uerr
+						}
+						return fmt.Errorf("%s: unexpected error: %v", uq.SQL(), uerr)
+					}
+					urq := *rq
+					urq.AsOf, urq.Until = defA, defU
+					if d := h.DiffRows(sem.Query(pts, &urq), ug.Rows, nil); d != "" {
+						return fmt.Errorf("unbounded query %s run after %s differs from the reference:\n%s", uq.SQL(), q.SQL(), d)
+					}
+					return nil
 				}
 				if firstDiff == "" {
 					firstDiff = fmt.Sprintf("window (%d, %d]: %s", a, u, d)
